@@ -41,8 +41,13 @@ def step (s : S) (line : String) : S × String :=
     | some k, some m, some g => ({ s with env := { s.env with sigs := (k, m, g) :: s.env.sigs } }, "ok")
     | _, _, _ => (s, "bad-op")
   | ["rlp", v2, tx, h, canonTx] =>
-    match bool01 v2, ofHex tx, ofHex h, ofHex canonTx with
-    | some v, some tx, some h, some c => ({ s with env := { s.env with rlp := ⟨v, tx, h, c⟩ :: s.env.rlp } }, "ok")
+    -- the last word is the hex of the converted transaction, or `err:<class>` when the conversion fails
+    let conv : Option (Bytes × Option Rej) :=
+      if canonTx.startsWith "err:" then (Rej.ofString (canonTx.drop 4).toString).map fun r => ([], some r)
+      else (ofHex canonTx).map fun c => (c, none)
+    match bool01 v2, ofHex tx, ofHex h, conv with
+    | some v, some tx, some h, some (c, err) =>
+      ({ s with env := { s.env with rlp := ⟨v, tx, h, c, err⟩ :: s.env.rlp } }, "ok")
     | _, _, _, _ => (s, "bad-op")
   | ["height", h] =>
     match h.toNat? with
